@@ -5,6 +5,7 @@ import (
 	"sort"
 	"strconv"
 	"strings"
+	"time"
 
 	"github.com/fufuok/cache/zzverif/vtime"
 )
@@ -32,6 +33,9 @@ type SeqProgram struct {
 	Ops   []SeqOp   `json:"ops"`
 	Note  string    `json:"note"`
 	Pin   *Pin      `json:"pin,omitempty"`
+	// Watch: every call runs under a (real-time, generous) watchdog; a call that does not return is recorded as an
+	// observation with note "hang" and ends the program (re-entrant callbacks, C13/C06)
+	Watch bool `json:"watch,omitempty"`
 }
 
 // computeFn builds a Compute user function from the catalogue.
@@ -98,10 +102,16 @@ func runSeqCache(p *SeqProgram, tr int, tw *TraceWriter) {
 	vtime.ResetTimers()
 	vtime.Set(1000 * unit)
 	var cur *Event
+	var cself CacheAPI
 	mkcb := func(id string) func(k, v string) {
 		return func(k, v string) {
 			if cur != nil {
 				cur.Evs = append(cur.Evs, KV{Cb: id, K: k, V: v})
+			}
+			// re-entrant callbacks: the callback reads the evicted key back (no logical effect: the entry is gone)
+			if strings.HasPrefix(id, "cbGet") && cself != nil {
+				cself.Get(k)
+				cself.Count()
 			}
 		}
 	}
@@ -114,6 +124,7 @@ func runSeqCache(p *SeqProgram, tr int, tw *TraceWriter) {
 	}
 	applyPin(p.Pin)
 	c := newCache(cfg, cb)
+	cself = c
 	defer clearPin()
 	hdr := &Event{Ev: "reset", Tr: tr, Kind: cfg.Kind, KeyType: cfg.KeyType, Ctor: cfg.Ctor, HasDef: cfg.HasDef || cfg.Ctor == "NewDefault", Def: p.Cache.Def,
 		HasIntv: cfg.HasIntv || cfg.Ctor == "NewDefault", Intv: p.Cache.Interval, Cb: cfg.Cb,
@@ -125,81 +136,96 @@ func runSeqCache(p *SeqProgram, tr int, tw *TraceWriter) {
 		e := &Event{Ev: "op", Tr: tr, Op: op.Op, K: op.K, V: op.V, D: op.D, Fn: op.Fn, Rv: Nil, Now: vtime.VNow() / unit, C0: prevCount}
 		cur = e
 		d := op.D * unit
-		switch op.Op {
-		case "Tick":
-			e.Ev = "tick"
-			vtime.Advance(d)
-		case "Set":
-			c.Set(op.K, op.V, d)
-		case "SetDefault":
-			c.SetDefault(op.K, op.V)
-		case "SetForever":
-			c.SetForever(op.K, op.V)
-		case "Get":
-			e.Rv, e.Ok = c.Get(op.K)
-		case "GetWithExpiration":
-			var x int64
-			e.Rv, x, e.Ok = c.GetWithExpiration(op.K)
-			e.X = divExact(x, unit, e)
-		case "GetWithTTL":
-			var x int64
-			e.Rv, x, e.Ok = c.GetWithTTL(op.K)
-			e.X = divExact(x, unit, e)
-		case "GetOrSet":
-			e.Rv, e.Ok = c.GetOrSet(op.K, op.V, d)
-		case "GetAndSet":
-			e.Rv, e.Ok = c.GetAndSet(op.K, op.V, d)
-		case "GetAndRefresh":
-			e.Rv, e.Ok = c.GetAndRefresh(op.K, d)
-		case "GetOrCompute":
-			e.Rv, e.Ok = c.GetOrCompute(op.K, func() string {
-				e.N++
-				userYield()
-				if op.Ft > 0 {
-					e.Ft += op.Ft
-					vtime.Advance(op.Ft * unit)
+		exec := func() {
+			switch op.Op {
+			case "Tick":
+				e.Ev = "tick"
+				vtime.Advance(d)
+			case "Set":
+				c.Set(op.K, op.V, d)
+			case "SetDefault":
+				c.SetDefault(op.K, op.V)
+			case "SetForever":
+				c.SetForever(op.K, op.V)
+			case "Get":
+				e.Rv, e.Ok = c.Get(op.K)
+			case "GetWithExpiration":
+				var x int64
+				e.Rv, x, e.Ok = c.GetWithExpiration(op.K)
+				e.X = divExact(x, unit, e)
+			case "GetWithTTL":
+				var x int64
+				e.Rv, x, e.Ok = c.GetWithTTL(op.K)
+				e.X = divExact(x, unit, e)
+			case "GetOrSet":
+				e.Rv, e.Ok = c.GetOrSet(op.K, op.V, d)
+			case "GetAndSet":
+				e.Rv, e.Ok = c.GetAndSet(op.K, op.V, d)
+			case "GetAndRefresh":
+				e.Rv, e.Ok = c.GetAndRefresh(op.K, d)
+			case "GetOrCompute":
+				e.Rv, e.Ok = c.GetOrCompute(op.K, func() string {
+					e.N++
+					userYield()
+					if op.Ft > 0 {
+						e.Ft += op.Ft
+						vtime.Advance(op.Ft * unit)
+					}
+					return op.V
+				}, d)
+			case "Compute":
+				e.Fo = Nil
+				inner := computeFn(op.Fn, op.V, &e.N, &e.Fo, &e.Fl)
+				e.Rv, e.Ok = c.Compute(op.K, func(o string, l bool) (string, bool) {
+					if op.Ft > 0 {
+						e.Ft += op.Ft
+						vtime.Advance(op.Ft * unit)
+					}
+					return inner(o, l)
+				}, d)
+			case "GetAndDelete":
+				e.Rv, e.Ok = c.GetAndDelete(op.K)
+			case "Delete":
+				c.Delete(op.K)
+			case "DeleteExpired":
+				c.DeleteExpired()
+			case "Range":
+				c.Range(visitor(op.Fn, &e.Vis))
+				sort.Slice(e.Vis, func(i, j int) bool { return e.Vis[i].K < e.Vis[j].K })
+			case "RangeNil":
+				c.RangeNil()
+			case "Items":
+				e.Vis = sortedKV(c.Items())
+			case "Clear":
+				c.Clear()
+			case "Count":
+				e.X = int64(c.Count())
+			case "DefaultExpiration":
+				e.X = divExact(c.DefaultExpiration(), unit, e)
+			case "SetDefaultExpiration":
+				c.SetDefaultExpiration(d)
+			case "SetEvictedCallback":
+				if op.Fn == "" || op.Fn == "nil" {
+					c.SetEvictedCallback(nil)
+				} else {
+					c.SetEvictedCallback(mkcb(op.Fn))
 				}
-				return op.V
-			}, d)
-		case "Compute":
-			e.Fo = Nil
-			inner := computeFn(op.Fn, op.V, &e.N, &e.Fo, &e.Fl)
-			e.Rv, e.Ok = c.Compute(op.K, func(o string, l bool) (string, bool) {
-				if op.Ft > 0 {
-					e.Ft += op.Ft
-					vtime.Advance(op.Ft * unit)
-				}
-				return inner(o, l)
-			}, d)
-		case "GetAndDelete":
-			e.Rv, e.Ok = c.GetAndDelete(op.K)
-		case "Delete":
-			c.Delete(op.K)
-		case "DeleteExpired":
-			c.DeleteExpired()
-		case "Range":
-			c.Range(visitor(op.Fn, &e.Vis))
-			sort.Slice(e.Vis, func(i, j int) bool { return e.Vis[i].K < e.Vis[j].K })
-		case "RangeNil":
-			c.RangeNil()
-		case "Items":
-			e.Vis = sortedKV(c.Items())
-		case "Clear":
-			c.Clear()
-		case "Count":
-			e.X = int64(c.Count())
-		case "DefaultExpiration":
-			e.X = divExact(c.DefaultExpiration(), unit, e)
-		case "SetDefaultExpiration":
-			c.SetDefaultExpiration(d)
-		case "SetEvictedCallback":
-			if op.Fn == "" || op.Fn == "nil" {
-				c.SetEvictedCallback(nil)
-			} else {
-				c.SetEvictedCallback(mkcb(op.Fn))
+			default:
+				die("unknown cache op %q", op.Op)
 			}
-		default:
-			die("unknown cache op %q", op.Op)
+		}
+		if p.Watch {
+			done := make(chan struct{})
+			go func() { defer close(done); exec() }()
+			select {
+			case <-done:
+			case <-time.After(20 * time.Second):
+				e.Note = "hang"
+				tw.Write(e)
+				return
+			}
+		} else {
+			exec()
 		}
 		cur = nil
 		e.C1 = c.Count()
